@@ -7,6 +7,7 @@ fault-tolerance protocol. The fault is injected at the existing seam `otBase.hb`
 """
 import io
 import logging
+import warnings
 import os
 
 from sim import corpus, prng, world
@@ -34,7 +35,7 @@ ASSUMPTIONS = [
 EXPECTED_PROBES = ["fault.RepackerError", "fault.MemoryError", "fault.ValueError", "state.fallback_used", "overflow.resolved", "mode.True", "mode.None", "mode.False", "no_uharfbuzz", "second_compile", "gen.pairs", "gen.manylookups", "gen.ligatures", "gen.unpackable", "shaping.nonidentity"]
 
 TIERS = {
-    "quick": {"budget_s": 600, "determinism_sample": 8, "n": {"corpus": 1400, "fea": 900, "gen": 96}, "minimise_s": 40, "max_minimise": 3},
+    "quick": {"budget_s": 600, "determinism_sample": 8, "n": {"corpus": 1400, "fea": 900, "gen": 153}, "minimise_s": 40, "max_minimise": 3},
     "thorough": {"budget_s": 5400, "determinism_sample": 80, "n": {"corpus": 15000, "fea": 8000, "gen": 1500}, "minimise_s": 120, "max_minimise": 6},
 }
 
@@ -104,11 +105,14 @@ def generate(ctx, batch, idx):
         return {"kind": "corpus", "font": fonts[idx % len(fonts)] if r.random() < 0.7 else r.choice(fonts), "cfg": _config(r, idx), "sseed": r.randrange(1 << 30), "ops": []}
     if batch == "fea":
         feas = corpus.fea_files()
-        return {"kind": "fea", "fea": feas[idx % len(feas)] if r.random() < 0.7 else r.choice(feas), "cfg": _config(r, idx), "sseed": r.randrange(1 << 30), "ops": []}
+        fea = feas[idx % len(feas)] if r.random() < 0.7 else r.choice(feas)
+        if r.random() < 0.35:
+            fea = "gen:%d" % r.randrange(1 << 30)  # a generated feature file (props/c16_feagen.py)
+        return {"kind": "fea", "fea": fea, "cfg": _config(r, idx), "sseed": r.randrange(1 << 30), "ops": []}
     if batch == "gen":
         shapes = ["pairs", "classes", "manylookups", "ligatures", "markbase", "mixedpairs", "pairs", "classes", "manylookups", "ligatures", "markbase", "mixedpairs", "foreigncov", "multiple", "alternate", "singlepos", "pairs", "unpackable"]
         sh = shapes[idx % len(shapes)]
-        size = r.choice({"pairs": [90, 185, 262], "classes": [60, 190, 230], "manylookups": [62, 75, 95], "ligatures": [60, 95, 120], "mixedpairs": [8, 24, 150], "foreigncov": [40, 60, 300], "multiple": [(400, 5), (3000, 11), (5200, 6)], "alternate": [(300, 4), (2600, 12), (6000, 5)], "singlepos": [300, 8200, 12000], "markbase": [(120, 41), (200, 50), (200, 51), (260, 37)], "unpackable": [3]}[sh])
+        size = r.choice({"pairs": [90, 185, 262], "classes": [60, 190, 230], "manylookups": [62, 75, 95], "ligatures": [60, 95, 120], "mixedpairs": [8, 24, 150], "foreigncov": [40, 60, 300], "multiple": [(400, 5), (3000, 11), (5200, 6)], "alternate": [(300, 4), (2600, 12), (6000, 5)], "singlepos": [300, 8200, -20000, -30000, 12000], "markbase": [(120, 41), (200, 50), (200, 51), (260, 37)], "unpackable": [3]}[sh])
         return {"kind": "gen", "shape": sh, "size": size, "cfg": _config(r, idx), "sseed": r.randrange(1 << 30), "ops": []}
     raise ValueError(batch)
 
@@ -227,12 +231,19 @@ def compile_font(font, cfg, probes, faults):
 
 
 def shape_all(data, ttfont_for_tags, seqs, limit_sl=3):
-    font, face = oshape.make_font(data)
+    """Shaping of every sequence under each script/language: at the design size, and once more at 12 ppem
+    (where device tables apply) and, for a variable font, away from the default location (where the
+    variation indices of values and anchors apply)."""
     feats = {t: True for t in oshape.feature_tags(ttfont_for_tags)}
     out = []
-    for sc, lg in oshape.script_langs(ttfont_for_tags, limit_sl):
-        for s in seqs:
-            out.append(oshape.shape(font, s, sc, lg, feats))
+    var = None
+    if "fvar" in ttfont_for_tags:
+        var = {a.axisTag: (a.maxValue if a.maxValue != a.defaultValue else a.minValue) for a in ttfont_for_tags["fvar"].axes}
+    for ppem, vv in ((None, None), (12, var)):
+        font, face = oshape.make_font(data, ppem=ppem, variations=vv)
+        for sc, lg in oshape.script_langs(ttfont_for_tags, limit_sl):
+            for s in seqs:
+                out.append(oshape.shape(font, s, sc, lg, feats))
     return out
 
 
@@ -250,6 +261,7 @@ def execute(ctx, h):
     logging.disable(logging.CRITICAL)
     try:
         with world.isolated():
+            warnings.simplefilter("ignore")
             k = h["kind"]
             if k == "corpus":
                 return exec_corpus(ctx, h)
@@ -366,7 +378,14 @@ def exec_fea(ctx, h):
         with Seams(c, pr, fl):
             apply_cfg(f, c, pr)
             try:
-                addOpenTypeFeatures(f, corpus.path(h["fea"]))
+                if h["fea"].startswith("gen:"):
+                    from fontTools.feaLib.builder import addOpenTypeFeaturesFromString
+                    from props import c16_feagen
+
+                    addOpenTypeFeaturesFromString(f, c16_feagen.generate(prng.sub("feagen", int(h["fea"][4:]))))
+                    pr["fea.generated"] = 1
+                else:
+                    addOpenTypeFeatures(f, corpus.path(h["fea"]))
                 b = io.BytesIO()
                 f.save(b)
                 out = b.getvalue()
